@@ -680,3 +680,16 @@ V("MS1-benign-memo-of-nothing-reassignable", "C08", None,
    "    @property\n    def data_type(self):\n        try:\n            return numpy_data_types[self.data.dtype]\n"))
 V("BD1-receiver-sized-without-the-offset", "C04", "BD1",
   ("tdms.py", "            if length is None:\n                num_values = len(self) - offset\n", "            if length is None:\n                num_values = len(self)\n"))
+_IX_OLD = "        if index_cache is not None:\n            self.object_index = index_cache.get_index(self.ordered_objects)\n"
+_IX_NEW = ("        if index_cache is not None:\n            if existing_objects is not None and not appended:\n                self.object_index = previous_segment.object_index\n"
+           "            else:\n                self.object_index = index_cache.get_index(self.ordered_objects)\n")
+_AP_OLD = "                self.ordered_objects.append(segment_obj)\n                if raw_data_index_header == RAW_DATA_INDEX_MATCHES_PREVIOUS:\n"
+_AP_NEW = "                self.ordered_objects.append(segment_obj)\n                appended = True\n                if raw_data_index_header == RAW_DATA_INDEX_MATCHES_PREVIOUS:\n"
+_RU_OLD = "                self._reuse_previous_object(\n                    previous_segment_obj, raw_data_index_header, file, endianness)\n"
+_RU_NEW = "                self._reuse_previous_object(\n                    previous_segment_obj, raw_data_index_header, file, endianness)\n                appended = True\n"
+_FL_OLD = "        log.debug(\"Reading segment object metadata at %d\", file.tell())\n"
+_FL_NEW = "        appended = False\n        log.debug(\"Reading segment object metadata at %d\", file.tell())\n"
+V("IN2-flag-forgotten-when-a-known-object-is-re-added", "C02", "IN2",
+  ("tdms_segment.py", _IX_OLD, _IX_NEW), ("tdms_segment.py", _AP_OLD, _AP_NEW), ("tdms_segment.py", _FL_OLD, _FL_NEW))
+V("IN2-benign-flag-set-by-both-appending-branches", "C02", None,
+  ("tdms_segment.py", _IX_OLD, _IX_NEW), ("tdms_segment.py", _AP_OLD, _AP_NEW), ("tdms_segment.py", _RU_OLD, _RU_NEW), ("tdms_segment.py", _FL_OLD, _FL_NEW))
